@@ -15,7 +15,7 @@ known where it does not allow unknowns, non-null).  An `Impl` is a function
 import CtyModel.Ops2
 import CtyModel.Gocty
 namespace CtyModel
-namespace Stdlib
+namespace StdNum
 
 /-- `args[i]` of a Go slice -/
 def arg (args : List Value) (i : Nat) : Res Value :=
@@ -310,5 +310,5 @@ def numImpl (name : String) : Option (List Value → Res Value) :=
   | "signum" => some signumImpl | "parseint" => some parseIntImpl
   | _ => none
 
-end Stdlib
+end StdNum
 end CtyModel
